@@ -483,6 +483,10 @@ def _exec_crosstalk(plan, ctx):
         n_out = out.get_L()
         if n_out != len(delivered) or any(d is None for d in delivered):
             raise AssertionError("harness: could not attribute delivered samples")
+        if sc["key"] is None and delivered != list(range(len(delivered))):
+            # no shuffling key: row r of the mapped output must be the prediction for sample r
+            viol("output_row_alignment", {"schedule": sc, "delivered_order": delivered}, f"{site0}/output_row_alignment")
+            break
         bad = []
         for pos, i in enumerate(delivered):
             evals += 1
